@@ -2,6 +2,7 @@ package sqlgen
 
 import (
 	"fmt"
+	"strings"
 
 	"github.com/ajitpratap0/GoSQLX/pkg/sql/ast"
 )
@@ -223,7 +224,9 @@ func RepExprs(yield func(name string, x X)) {
 		N: &ast.ArrayConstructorExpression{}, P: PPrimary, Feat: []string{"expr.array", "expr.array.empty"}}}))
 	// the optional clauses of a call in combination (each carries names of its own)
 	flt := func() *X { return xp(Bin(">", Col("c7"), Func("f7", []X{Col("c8")}, FuncOpts{}))) }
-	win := func() *Window { return &Window{Partition: []X{Col("c9")}, Order: []OrderItem{{X: Func("f9", []X{Col("c6")}, FuncOpts{})}}} }
+	win := func() *Window {
+		return &Window{Partition: []X{Col("c9")}, Order: []OrderItem{{X: Func("f9", []X{Col("c6")}, FuncOpts{})}}}
+	}
 	wg := []OrderItem{{X: Col("c5")}, {X: Col("c4"), Dir: "DESC"}}
 	yield("call-distinct+filter", Func("COUNT", []X{Col("c1")}, FuncOpts{Distinct: true, Filter: flt()}))
 	yield("call-filter+over", Func("SUM", []X{Col("c1")}, FuncOpts{Filter: flt(), Over: win()}))
@@ -579,6 +582,16 @@ func ClauseOptions(yield func(name string, s S)) {
 	s = base()
 	s.GroupBy = []X{Rollup([]X{Col("c1"), Col("c2")})}
 	yield("rollup", s.Build())
+	for _, w := range []string{"ROLLUP", "CUBE"} {
+		for _, gb := range [][]X{{Col("c1")}, {Col("c1"), Col("c2")}, {Col("c1"), Func("f1", []X{Col("c3")}, FuncOpts{}), Col("c2")}} {
+			s = base()
+			s.GroupBy, s.GroupByWith = gb, w
+			yield("group-by-with-"+strings.ToLower(w), s.Build())
+			s.Having = xp(Bin(">", Func("COUNT", nil, FuncOpts{Star: true}), Int("1")))
+			s.OrderBy = []OrderItem{{X: Col("c1")}}
+			yield("group-by-with-"+strings.ToLower(w)+"-having-order", s.Build())
+		}
+	}
 	s = base()
 	s.GroupBy = []X{Cube([]X{Col("c1")})}
 	yield("cube", s.Build())
